@@ -21,7 +21,7 @@ func init() {
 			"C01.enc: zero-based encoding: every store into year/month/day is (calendar component) − 1 or 0 for the zero time, every read leaving the type (Date, Year, Month, Day, Time) is field + 1 with the right sign/zero extension. " +
 			"C01.lang: every canonical text D{4,9}-MM-DD / D{4,9}MMDD with MM 01..12 and DD 01..31 lies in the parser's accepted layout language (regexp ∩ separator decision table); capture groups 2 and 3 have fixed width 2, group 1 is D{4,9}; captures flow through Atoi into New(year, month, day) in that order. " +
 			"C01.buffer: internal.Bprintf and date.DefaultFormatter hand back the caller's buffer extended by append-only operations, never storage shared with a later call (the summary C01.fmt relies on; rule shared with C16). C01.enc also covers date.New = FromTime(time.Date(y,m,d,0,0,0,0,UTC)). C01.paths: MarshalText/String/Format are in the method set of the value type, UnmarshalText in that of the pointer, and neither has a method the standard JSON/XML encoders prefer to the text methods (MarshalJSON, UnmarshalXML, …). C01.parse: the parser's accepted value is New(number of capture 1, 2, 3), accepted only when the constructed date has those components, on the extended and basic layouts with 4- and 9-digit years and with the rule bit clear or set. C01.limit: the default MaxInputLength admits the longest canonical text for years ≤ 9999. S-DELEG: MarshalText/String/Format/UnmarshalText reach DefaultFormatter/DefaultParser only through the package-level Formatter/Parser with the documented flag; verb table b/e/s." +
-			" Added after the second rule audit: the layout table and the construction are also extracted with the limit raised (set, the text within it), not only disabled; C01.subject: the pattern is applied to the whole input and a failed match is an error; the formatter is also evaluated with every other flag bit set (no undocumented flag selects another layout); C01.paths: an exported function or method of the package that takes a text and is not one of the recorded input paths must hand that text unchanged to one of them (else undecided).",
+			" Added after the second rule audit: the layout table and the construction are also extracted with the limit raised (set, the text within it), not only disabled; C01.subject: the pattern is applied to the whole input and a failed match is an error; the formatter is also evaluated with every other flag bit set (no undocumented flag selects another layout); C01.paths: an exported function or method of the package that takes a text and is not one of the recorded input paths must hand that text unchanged to one of them (else undecided). Since audit round 3: Scan is evaluated for string, []byte, int64, float64 and bool sources; an input path added later is anything that takes a text and yields a Date (with or without an error result), may only hand its text on unexamined and must return the recorded path's result as it came; the construction is also read for 5- to 8-digit years; a verb singled out by a range test gets scenarios on both sides of the bound.",
 		NotDecided:  []string{"time.Date∘Time.Date is the identity on real dates (trusted summary)", "behaviour for negative years or years beyond int32", "encoding/json and encoding/xml call MarshalText/UnmarshalText (stdlib)"},
 		Assumptions: []string{"fmt %0Nd prints at least N digits, zero padded, for non-negative integers"},
 		Technique:   "format-string reading + symbolic evaluation (affine/bit provenance) + regular-language inclusion",
